@@ -715,7 +715,11 @@ class TextType(StringType):
 
     def copy(self):
         # DataType.copy will not work, because it is exported as 'string'
-        return TextType(self.maxchars)
+        result = TextType(self.maxchars)
+        # keep properties which might have been modified (e.g. by configuration)
+        for key in 'minchars', 'isUTF8':
+            result.setProperty(key, getattr(self, key))
+        return result
 
 
 class BoolType(DataType):
